@@ -59,6 +59,12 @@ RULE = ("seeded samples (n in 8..400) drawn from Weibull / Gumbel / GumbelMin wi
         "population moments: Gumbel / GumbelMin objects with (loc, scale) from a fixed pool (|loc|/scale from 0 to 2000, scale "
         "0.01..1000) plus seeded random pairs, beta0, beta1, M101, variance by scipy quadrature of the object's own pdf / cdf, the "
         "real pwm / msm called on two-point samples that carry exactly these moments; "
+        "long samples (size-conditioned code paths): n in {999,1000,1001,1023,1024,1025 | 4095,4096,4097 | 9999,10000,10001 | 65535,"
+        "65537,70001,131073} (quick: one size per group, thorough: all), random or exact-quantile samples whose three largest values "
+        "and smallest value are swapped to the first / last elements or to the positions m, m-1, m+1 around the largest multiple m of "
+        "1000 / 1024 / 4096 / 10000 / 65536 below n, or handed over sorted; every method of the distribution: equivariance, "
+        "reversed order, msm moments against exactly rounded sums, mirror, recovery; model correspondence of the closed forms on "
+        "the same samples (n <= 4097 in quick); "
         "non-trivial = every sample (all have distinct values); distinct by (distribution, parameters, n, seed)")
 
 
@@ -886,6 +892,191 @@ def gen_reject(rng, kind, names, cur, sc):
     return [st, dict(method=rng.choice(names), a=cur[0], b=cur[1], via="keep")]
 
 
+# ---- long samples: size-conditioned code paths ------------------------------------------------------------------------------------
+# Sizes just below / at / just above 1000, 1024, 4096, 10000 and beyond 65536; the extremes of the sample sit in the first / last
+# elements of the array handed over, or exactly at / next to / across a multiple of the block length (1000, 1024, 4096, 10000,
+# 65536).  The multiset of values is that of an ordinary random (or exact-quantile) sample: only positions are arranged.
+LONG_GROUPS = ((999, 1000, 1001, 1023, 1024, 1025), (4095, 4096, 4097), (9999, 10000, 10001), (65535, 65537, 70001, 131073))
+LONG_BLOCKS = (1000, 1024, 4096, 10000, 65536)
+LONG_PLACES = ("first", "last", "edge", "edge-sorted")
+
+
+def fsum_moments(x):
+    """mean, population variance, third central moment of x by exactly rounded sums (math.fsum)"""
+    n = float(len(x))
+    m = math.fsum(x) / n
+    d = [float(v) - m for v in x]
+    return m, math.fsum(t * t for t in d) / n, math.fsum(t * t * t for t in d) / n
+
+
+def long_sample(Q, inp):
+    """the sample of a long case: make_sample (random, or exact quantiles in seeded order), then the three largest values and the
+    smallest one are swapped into the positions named by `place` ('edge': around the largest multiple m of `block` below n:
+    largest at m, second at m-1, third at 0, smallest at m+1 or m-2; 'edge-sorted': the array is handed over SORTED, so the
+    order statistics next to every block boundary are the neighbours in value)"""
+    x = np.array(make_sample(Q, inp), dtype=float)
+    n, place = x.size, inp["place"]
+    if place == "edge-sorted":
+        return np.sort(x)
+    B = inp.get("block") or 1024
+    m = ((n - 1) // B) * B
+    if place == "edge" and m >= 3:
+        tg = [m, m - 1, 0, m + 1 if m + 1 < n else m - 2]
+    elif place == "first":
+        tg = [0, 1, 2, 3]
+    else:
+        tg = [n - 1, n - 2, n - 3, n - 4]
+    for r, t in enumerate(tg[:3]):
+        i = int(np.argsort(x)[-1 - r])
+        x[i], x[t] = x[t], x[i]
+    i = int(np.argmin(x))
+    x[i], x[tg[3]] = x[tg[3]], x[i]
+    return x
+
+
+def eval_long(Q, inp):
+    """clauses of the property on ONE long sample, for every method of the distribution: equivariance under x -> a*x+b; the same
+    sample handed over in another order (reversed) is the same sample (x -> 1*x+0); the method of moments reproduces mean,
+    standard deviation (and skewness) computed with exactly rounded sums; minima mirror maxima; exact-quantile samples:
+    recovery of the parameters.  Returns [(oracle, expected, observed)]."""
+    kind, entry = inp["dist"], inp.get("entry", "module")
+    x = long_sample(Q, inp)
+    n = x.size
+    keep = x.copy()
+    a, b = inp["a"], inp["b"]
+    out = []
+    where = "n=%d, extremes placed '%s'%s" % (n, inp["place"], ", block %d" % inp["block"] if inp.get("block") else "")
+
+    def attempt(k, name, data):
+        try:
+            r = fit_via(Q, k, name, data, entry)
+            return r if all(math.isfinite(t) for t in r) else "non-finite: %r" % (r,)
+        except Exception as e:                                    # noqa
+            return "%s: %s" % (type(e).__name__, e)
+
+    mom = None
+    for name in inp.get("methods") or METHODS[kind]:
+        tol = tol_of(name)
+        if name == "pwm2" and not np.all(x > 0):
+            continue
+        p = attempt(kind, name, x)
+        if isinstance(p, str):
+            out.append(("estimator must not raise / return non-finite parameters on a long sample of the distribution (%s, %s)"
+                        % (name, where), "fit", p))
+            continue
+        bb = 0.0 if name == "pwm2" else b
+        q = attempt(kind, name, a * x + bb)
+        exp = transformed(kind, name, p, a, bb)
+        if isinstance(q, str) or not same_fit(kind, name, exp, q, tol):
+            out.append(("fit(a*x+b) == (a*loc+b, a*scale[, shape]) for method %s on a long sample (%s)" % (name, where),
+                        list(exp), q if isinstance(q, str) else list(q)))
+        if not inp.get("lean"):
+            r = attempt(kind, name, x[::-1].copy())
+            if isinstance(r, str) or not same_fit(kind, name, p, r, tol):
+                out.append(("fit(1*x+0) == fit(x): the same long sample handed over in reversed order is fitted alike (method %s, %s)"
+                            % (name, where), list(p), r if isinstance(r, str) else list(r)))
+        if name == "msm":
+            if mom is None:
+                mom = fsum_moments(x)
+            m, v, m3 = mom
+            if kind == "wb":
+                d = Q["cls"]["wb"](*p)
+                sd, sk = math.sqrt(v), m3 / v ** 1.5
+                if not (abs(float(d.mean) - m) <= 1e-7 * (abs(m) + sd) and close(float(d.std), sd, 1e-7)
+                        and abs(float(d.skew) - sk) < 1e-6 * max(1.0, abs(sk))):
+                    out.append(("msm reproduces sample mean, standard deviation and skewness of a long sample (moments by exactly "
+                                "rounded sums; %s)" % where, [m, sd, sk], [float(d.mean), float(d.std), float(d.skew)]))
+            else:
+                d = Q["cls"][kind](p[0], p[1])
+                sd = math.sqrt(v * n / (n - 1.0))
+                if not (abs(float(d.mean) - m) <= 1e-9 * (abs(m) + sd) and close(float(d.std), sd, 1e-9)):
+                    out.append(("msm reproduces sample mean and (unbiased) standard deviation of a long sample (moments by exactly "
+                                "rounded sums; %s, %s)" % ("Gumbel" if kind == "gu" else "GumbelMin", where),
+                                [m, sd], [float(d.mean), float(d.std)]))
+        if kind in ("gu", "gm") and name in ("msm", "lse", "mle"):
+            okind = "gu" if kind == "gm" else "gm"
+            other = attempt(okind, name, -x)
+            if not isinstance(other, str):
+                exp = (-other[0], other[1])
+                if not same_fit(kind, name, exp, p, 1e-9 if name == "msm" else tol):
+                    out.append(("the %s fit of a long sample is the mirror of the %s fit of the negated sample (%s, %s)"
+                                % ("GumbelMin" if kind == "gm" else "Gumbel", "Gumbel" if kind == "gm" else "GumbelMin", name, where),
+                                list(exp), list(p)))
+        if inp.get("exact") and not (name == "pwm2" and inp["loc"] != 0.0):      # pwm2: the location is zero by assumption
+            truth = tuple(inp[k] for k in layout(kind, name))
+            if not recovered(kind, name, truth, p):
+                out.append(("every method recovers the parameters of a large sample that follows the distribution exactly (%d "
+                            "quantiles, %s; %s; within 10 %%)" % (n, name, where), list(truth), list(p)))
+    if not np.array_equal(x, keep):
+        out.append(("fitting leaves the caller's sample unchanged (long sample)", "unchanged", "modified"))
+    return out
+
+
+def gen_long(rng, n, i):
+    kind = ("gu", "wb", "gm")[i % 3]
+    scale = round(10 ** rng.uniform(-0.5, 1.3), 3)
+    loc = round(rng.uniform(-20, 20), 2)
+    info = dict(case="long", dist=kind, loc=loc, scale=scale, n=n, seed=rng.randint(0, 10 ** 6), exact=(i % 4 == 3))
+    if kind == "wb":
+        info["shape"] = rng.choice([1.0, 1.5, 2.0, 3.0])
+        info["loc"] = (0.0 if info["exact"] and rng.random() < 0.5 else max(loc, 0.1)) if rng.random() < 0.6 else loc
+    a = rng.choice(A_POOL)
+    b = float(round(rng.uniform(2, 10) * rng.choice([-1, 1]) * a * scale, 2))
+    blocks = [B for B in LONG_BLOCKS if B + 1 < n] or [None]
+    place = LONG_PLACES[(i + rng.randrange(2)) % len(LONG_PLACES)] if blocks[0] else rng.choice(["first", "last", "edge-sorted"])
+    return dict(info, a=a, b=b, place=place, block=rng.choice(blocks[-2:]) if place == "edge" else None,
+                entry=rng.choice(["module", "class"]))
+
+
+def run_long(chk, Q, drv, judge, weibull, gumbel, gumbelmin):
+    rng = chk.rng
+    # every size group x every distribution (quick: one size per pair, at most 70001; thorough: every size x every distribution)
+    if chk.quick:
+        plan = [(rng.choice(g if gi < 3 else g[:3]), d) for gi, g in enumerate(LONG_GROUPS) for d in range(3)]
+    else:
+        plan = [(n, d) for g in LONG_GROUPS for n in g for d in range(3)]
+    lines, meta = [], []
+    for k, (n, d) in enumerate(plan):
+        inp = gen_long(rng, n, d + 3 * rng.randrange(4))
+        if chk.quick and n > 20000:
+            # quick: no reversed-order re-fit of the longest sample; Weibull: pwm2 shares mlj with pwm (each pwm takes ~0.7 s)
+            inp["lean"] = True
+            if inp["dist"] == "wb":
+                inp["methods"] = ["msm", "pwm"]
+        chk.dist("long.%s.n%d.%s" % (inp["dist"], n, inp["place"]))
+        chk.nontriv("long:%s:%d:%d" % (inp["dist"], n, inp["seed"]))
+        judge(eval_long, inp, "long." + inp["dist"])
+        # correspondence with the model on the same long sample (closed forms; the line protocol handles 10^4 values in < 1 s)
+        if n <= (4097 if chk.quick else 70001):
+            try:
+                x = long_sample(Q, inp)
+                S = " ".join(fbits(v) for v in np.sort(x))
+                U = " ".join(fbits(v) for v in x)
+                with np.errstate(all="ignore"):
+                    if inp["dist"] == "wb":
+                        lines.append("est.wbpwm " + S); meta.append((inp, "wbpwm", list(weibull.pwm(x))))
+                        if np.all(x > 0):
+                            lines.append("est.wbpwm2 " + S); meta.append((inp, "wbpwm2", list(weibull.pwm2(x))))
+                    else:
+                        lines.append("est.gupwm " + S); meta.append((inp, "gupwm", list(gumbel.pwm(x))))
+                        lines.append("est.gumsm " + U); meta.append((inp, "gumsm", list(gumbel.msm(x))))
+                        lines.append("est.gmmsm " + U); meta.append((inp, "gmmsm", list(gumbelmin.msm(x))))
+            except Exception as e:                                 # noqa
+                chk.disagree("est.long", inp, "model value", "%s: %s" % (type(e).__name__, e))
+    if lines:
+        with np.errstate(all="ignore"):
+            outs = drv.run(lines)
+        for (inp, what, im), o in zip(meta, outs):
+            chk.count("est.long." + what)
+            try:
+                m = fl(o)
+            except Exception:                                      # noqa
+                chk.disagree("est.long." + what, inp, o, "ok ...")
+                continue
+            if len(m) != len(im) or not all(close(a_, float(b_), 1e-8) for a_, b_ in zip(m, im)):
+                chk.disagree("est.long." + what, inp, m, [float(v) for v in im])
+
+
 # ---- population moments: the closed-form Gumbel estimators at the moments of the distribution itself ---------------------------
 # Lean: Props/C16 gumbel_beta1, gumbel_m101, gumbel_pwm_population(_exact/_error), gumbelPwm_of_population_moments,
 # population_sample_exists, gumbel_msm_population_loc_partial, gumbelMin_msm_population_loc_partial.
@@ -1335,6 +1526,11 @@ def run(chk):
                              rec_inp, list(true), [float(v) for v in est], method=name)
     # ---- population moments: closed-form Gumbel estimators at the moments of the distribution itself (proved; tied here) ----------
     run_population(chk, Q, drv)
+    # ---- long samples (size-conditioned code paths): 999..1025, 4095..4097, 9999..10001, > 65536 ------------------------------------
+    import time as _time
+    _t0 = _time.time()
+    run_long(chk, Q, drv, judge, weibull, gumbel, gumbelmin)
+    chk.extra["long_stream_wall_s"] = round(_time.time() - _t0, 2)
     # ---- the same sample in other representations; histories of fits on one object / sequences of calls ------------------------
     for c in corpus:
         if c.get("case") == "firstuse":
@@ -1409,8 +1605,9 @@ def replay(rp):
             print("FAILS: %s\n   expected %s\n   observed %s" % (oracle, exp, obs))
         print("replay: %d failing clause(s)" % len(r["fails"]))
         return 1 if r["fails"] else 0
-    if inp.get("case") in ("container", "history", "app", "signal", "firstuse"):
-        ev = dict(container=eval_container, history=eval_history, app=eval_app, signal=eval_signal, firstuse=eval_firstuse)[inp["case"]]
+    if inp.get("case") in ("container", "history", "app", "signal", "firstuse", "long"):
+        ev = dict(container=eval_container, history=eval_history, app=eval_app, signal=eval_signal, firstuse=eval_firstuse,
+                  long=eval_long)[inp["case"]]
         if inp["case"] in ("history", "firstuse"):                 # may contain rejected requests: never hang
             done, res = run_limited(lambda: ev(qmods(), inp), 15.0)
             if not done:
